@@ -82,7 +82,7 @@ Definition w_test_not := mk FFind 1 0 P0 (SList [0;1;2]) SNil None None None (TT
 Definition w_subst_test_not := mk FSubstitute 1 9 P0 (SList [1;2]) SNil None None None (TTestNot TEql) CAbsent false.
 (* (set-difference '(1 2) '(2) :test-not 'eql) => (1) *)
 Definition w_setdiff_test_not := mk FSetDifference 0 0 P0 (SList [1;2]) (SList [2]) None None None (TTestNot TEql) CAbsent false.
-(* (remove 1 '(1 2 1) :count nil) => type-error *)
+(* (remove 1 '(1 2 1) :count nil) => (2) (repaired: was a type-error) *)
 Definition w_count_nil := mk FRemove 1 0 P0 (SList [1;2;1]) SNil None None None TDefault CNil false.
 (* (substitute 9 1 '(0 1 0 1) :count 1) => (0 1 0 1); :count 0 replaces; a negative count replaces all *)
 Definition w_subst_count := mk FSubstitute 1 9 P0 (SList [0;1;0;1]) SNil None None None TDefault (CNum 1) false.
@@ -132,7 +132,7 @@ Definition w_remove_if_not := mk FRemoveIfNot 0 0 P0 (SList [0;1;2]) SNil None N
 Definition w_find_if_not := mk FFindIfNot 0 0 P0 (SVec [0;1;2]) SNil None None None TDefault CAbsent false.
 
 Definition refutation_witnesses : list call :=
-  [w_remove_if_not; w_find_if_not; w_test_not; w_subst_test_not; w_setdiff_test_not; w_count_nil; w_subst_count; w_subst_count0; w_subst_count_neg;
+  [w_remove_if_not; w_find_if_not; w_test_not; w_subst_test_not; w_setdiff_test_not; w_subst_count; w_subst_count0; w_subst_count_neg;
    w_assoc_nil; w_assoc_order; w_search_from_end; w_search_empty; w_mismatch_from_end; w_mismatch_start;
    w_replace_end; w_fill_end; w_subseq_nil; w_every_nil; w_subsetp_nil; w_reduce_nil; w_map_nil; w_merge_nil;
    w_merge_tie; w_some_value; w_reduce_empty; w_reduce_start; w_dups_ne; w_dups_from_end].
@@ -150,7 +150,7 @@ Proof. vm_compute. split; reflexivity. Qed.
 (* ---- repaired defects: the witnesses of the findings repaired in slip (repo_fixes/C14-n.patch) are now inside
    the guard, and the model of the repaired code returns the value the language defines ------------------ *)
 Definition repaired_witnesses : list (call * res) :=
-  [ (w_count_utf8, RInt 2) ].
+  [ (w_count_utf8, RInt 2); (w_count_nil, RSeq [2]) ].
 Definition repaired_ok (cr : call * res) : bool :=
   in_domain (fst cr) &&
   match m_call (fst cr), s_call (fst cr) with
@@ -251,8 +251,6 @@ Proof. vm_compute. repeat split; reflexivity. Qed.
 Lemma if_not_missing_refuted : refutes w_remove_if_not = true /\ refutes w_find_if_not = true /\
   m_call w_remove_if_not = Some (RErr EUndefined) /\ s_call w_remove_if_not = Some (RSeq [0]) /\ s_call w_find_if_not = Some (RElt 1).
 Proof. vm_compute. repeat split; reflexivity. Qed.
-Lemma count_nil_refuted : refutes w_count_nil = true.
-Proof. vm_compute. reflexivity. Qed.
 Lemma substitute_count_refuted : refutes w_subst_count = true /\ refutes w_subst_count0 = true /\ refutes w_subst_count_neg = true.
 Proof. vm_compute. repeat split; reflexivity. Qed.
 Lemma assoc_refuted : refutes w_assoc_nil = true /\ refutes w_assoc_order = true.
